@@ -257,6 +257,7 @@ class CFG:
         self.inlined: List[str] = []          # qualified names of the helpers inlined into this graph
         self.inlined_bodies: List[List[ast.stmt]] = []   # instantiated (renamed) bodies, for syntax-directed rules
         self._used: Optional[Set[str]] = None
+        self._flags: Dict[str, tuple] = {}
         self.nodes: List[Node] = []
         self._cur_handler: Optional[HandlerInfo] = None
         self.entry = self._new("entry")
@@ -402,6 +403,8 @@ class CFG:
         if isinstance(e, ast.UnaryOp) and isinstance(e.op, ast.Not):
             en, t, f = self._cond(e.operand, ctxs)
             return en, f, t
+        if isinstance(e, ast.Name) and e.id in self._flags:
+            return self._cond(self._flags[e.id][0], ctxs)
         ci = self._cond_inline(e, ctxs)
         if ci is not None:
             return ci
@@ -415,12 +418,80 @@ class CFG:
         return n, [(n, "t")], [(n, "f")]
 
     # -- statements
+    # -- single-assignment boolean temporaries ("flags"): `f = a == b` ... `if f:` is built as `if a == b:`
+    @staticmethod
+    def _stores(node, deep: bool) -> Set[str]:
+        out: Set[str] = set()
+        todo = [node]
+        first = True
+        while todo:
+            n = todo.pop()
+            if isinstance(n, ast.Name) and isinstance(n.ctx, (ast.Store, ast.Del)):
+                out.add(n.id)
+            elif isinstance(n, ast.ExceptHandler) and n.name:
+                out.add(n.name)
+            elif isinstance(n, (ast.Import, ast.ImportFrom)):
+                for a in n.names:
+                    out.add((a.asname or a.name).split(".")[0])
+            if isinstance(n, (ast.FunctionDef, ast.AsyncFunctionDef, ast.ClassDef, ast.Lambda)) and not first:
+                if hasattr(n, "name"):
+                    out.add(n.name)
+                continue
+            first = False
+            if not deep and isinstance(n, ast.stmt) and n is not node:
+                continue
+            todo.extend(ast.iter_child_nodes(n))
+        return out
+
+    def _drop_flags(self, flags: dict, stored: Set[str]) -> dict:
+        if not stored:
+            return flags
+        return {k: v for k, v in flags.items() if k not in stored and not (v[1] & stored)}
+
     def _stmt(self, s: ast.stmt, ctxs) -> Frag:
+        from .inline import InlineBlock, SplicedBody
+        compound = isinstance(s, (ast.If, ast.For, ast.AsyncFor, ast.While, ast.With, ast.AsyncWith, ast.Try, InlineBlock, SplicedBody)) \
+            or (hasattr(ast, "TryStar") and isinstance(s, getattr(ast, "TryStar")))
+        if compound:
+            saved = dict(self._flags)
+            stored = self._stores(s, deep=True)
+            if isinstance(s, (ast.For, ast.AsyncFor, ast.While)):
+                self._flags = self._drop_flags(self._flags, stored)
+            try:
+                return self._stmt_inner(s, ctxs)
+            finally:
+                self._flags = self._drop_flags(saved, stored)
+        frag = self._stmt_inner(s, ctxs)
+        self._flags = self._drop_flags(self._flags, self._stores(s, deep=True))
+        if isinstance(s, ast.Assign) and len(s.targets) == 1 and isinstance(s.targets[0], ast.Name) \
+                and isinstance(s.value, (ast.Compare, ast.BoolOp)) or (
+                isinstance(s, ast.Assign) and len(s.targets) == 1 and isinstance(s.targets[0], ast.Name)
+                and isinstance(s.value, ast.UnaryOp) and isinstance(s.value.op, ast.Not)):
+            names = {x.id for x in ast.walk(s.value) if isinstance(x, ast.Name)}
+            if s.targets[0].id not in names:
+                self._flags[s.targets[0].id] = (s.value, frozenset(names))
+        return frag
+
+    def _stmt_inner(self, s: ast.stmt, ctxs) -> Frag:
         from .inline import InlineBlock, SplicedBody
         if isinstance(s, InlineBlock):
             return self._inline_block(s, ctxs)
         if isinstance(s, SplicedBody):
             return self._spliced_body(s, ctxs)
+        if isinstance(s, ast.Expr) and isinstance(s.value, ast.YieldFrom):
+            from .inline import desugar_yield_from
+            ds = desugar_yield_from(s)
+            if ds is not None:
+                # comprehension variables are local to the comprehension: keep them apart from the function's names
+                used = self._names_used()
+                tg = {x.id for x in ast.walk(ds[0].target) if isinstance(x, ast.Name)}
+                clash = {v: "%s__g%d" % (v, len(self.nodes)) for v in tg if v in used - tg or True}
+                if clash:
+                    from .inline import _Renamer
+                    import copy as _copy
+                    ds = [_Renamer(clash).visit(_copy.deepcopy(x)) for x in ds]
+                    used |= set(clash.values())
+                return self._block(ds, ctxs)
         if self.inliner is not None:
             if isinstance(s, (ast.With, ast.AsyncWith, ast.For, ast.AsyncFor)):
                 fr = self._try_splice(s, ctxs)
